@@ -2,7 +2,7 @@
    proofs in proofs/Rack_p.v, Frame_p.v, Containers_p.v, Owner_p.v, Cinv_p.v. *)
 From Coq Require Import ZArith QArith List Bool Permutation.
 From EosV Require Import lib.AList gen.T_eos model.World model.Ops model.Wf proofs.Rack_p proofs.Frame_p
-     proofs.Containers_p proofs.Owner_p proofs.Cinv_p proofs.Runs_p proofs.RunsC_p proofs.RunsD_p.
+     proofs.Containers_p proofs.Owner_p proofs.Cinv_p proofs.Runs_p proofs.RunsC_p proofs.RunsK_p proofs.RunsD_p.
 Import ListNotations.
 
 (* no trailing holes remain; trimming changes neither items nor their positions *)
@@ -135,19 +135,49 @@ Theorem C07_every_operation_keeps_consistency : forall w o,
   CI w -> op_okb w o = true -> CI (fst (fst (md_op w o))).
 Proof. intros w o C H. apply md_op_CI; [exact C|now apply op_okb_ok]. Qed.
 
-(* PARTIAL for the containers that items themselves are (a module's charge slot, every item's autocharge
-   dictionary): after every clean history in flat worlds (op_okb3, see props/C05.v) an item that names an
-   item container is listed by it, and an unloaded item holds no autocharges. The converse direction (a listed
-   item names its holder) and the absence of double listing are not proved; they are compared after every call
-   by the correspondence (fitdump lines: cont / charge / autos of every item). *)
-Theorem C07_item_containers_list_their_items_partial : forall pen ops,
+Definition c07c_universe : universe :=
+  mkUniverse []
+    [(EffectId_online, mkEffect 4 None None [] false None); (2001, mkEffect 1 None None [] false None);
+     (2005, mkEffect 1 None None [] false (Some 900)); (2010, mkEffect 0 None None [] false None);
+     (2012, mkEffect 0 None None [] false None)]
+    [(3100, mkType None None [] [] None []);
+     (3200, mkType None None [(900, (3300 # 1)%Q)] [EffectId_online; 2001; 2005] (Some 2001) []);
+     (3300, mkType None None [] [2010] None []);
+     (3400, mkType None None [] [2012] None [])]
+    [].
+Definition c07c_demo : list op :=
+  [ ODefSource 1 c07c_universe; ONewSolsys 1; ONewItem 10 CShip 3100 1 0; ONewItem 12 CModHigh 3200 1 0;
+    ONewItem 13 CCharge 3400 0 0;
+    ONewFit 1 2; OSource 1 (Some 1%nat); OSolsysAdd 1 1; OSlot 1 SlShip (Some 10%nat);
+    ORackAppend 1 RHigh 12; OCharge 12 (Some 13%nat); OState 12 State_active ]%Z.
+
+(* the containers that items themselves are (a module's charge slot, every item's autocharge dictionary): after
+   every clean history in flat worlds (op_okb3, see props/C05.v) an item names an item container exactly when
+   that container lists it, no autocharge is listed twice, and an unloaded item holds no autocharges. Together
+   with the theorem above: every container of the model -- slots, sets, racks of fits, charge slots and
+   autocharge dictionaries of items -- agrees with the container references of the items, in both directions. *)
+Theorem C07_item_containers_consistent_after_every_history : forall pen ops,
   ops_clean3b (init_sys pen) ops = true ->
   let w := s_w (run (init_sys pen) ops) in
-  (forall c cit m, get_item w c = Some cit ->
-     (i_cont cit = Some (PCharge m) -> exists mit, get_item w m = Some mit /\ i_charge mit = Some c) /\
-     (i_cont cit = Some (PAuto m) -> exists mit, get_item w m = Some mit /\ In c (map snd (i_autos mit)))) /\
+  (forall c m, (exists cit, get_item w c = Some cit /\ i_cont cit = Some (PCharge m)) <->
+               (exists mit, get_item w m = Some mit /\ i_charge mit = Some c)) /\
+  (forall a m, (exists ait, get_item w a = Some ait /\ i_cont ait = Some (PAuto m)) <->
+               (exists mit, get_item w m = Some mit /\ In a (map snd (i_autos mit)))) /\
+  (forall m mit, get_item w m = Some mit -> NoDup (map snd (i_autos mit))) /\
   (forall i it, get_item w i = Some it -> i_loaded it = None -> i_autos it = []).
-Proof. exact item_containers_list_their_items. Qed.
+Proof. exact item_containers_consistent. Qed.
+
+(* non-vacuity: the history of props/C05.v (a module with a charge and an autocharge) is inside the hypothesis *)
+Example C07_item_containers_nonvacuous :
+  ops_clean3b (init_sys []) c07c_demo = true /\
+  let w := s_w (run (init_sys []) c07c_demo) in
+  match get_item w 12, get_item w 13, get_item w 1000 with
+  | Some m, Some ch, Some au =>
+    i_charge m = Some 13%nat /\ i_cont ch = Some (PCharge 12) /\ map snd (i_autos m) = [1000%nat] /\
+    i_cont au = Some (PAuto 12)
+  | _, _, _ => False
+  end.
+Proof. vm_compute. repeat split. Qed.
 
 Definition c07_demo : list op :=
   [ ONewItem 1 CShip 100 1 0; ONewItem 2 CModHigh 200 1 0; ONewItem 3 CModHigh 201 1 0;
@@ -196,4 +226,4 @@ Print Assumptions C07_remove_clears_exactly_one_reference.
 Print Assumptions C07_load_unload_keep_references.
 Print Assumptions C07_containers_consistent_after_every_history.
 Print Assumptions C07_every_operation_keeps_consistency.
-Print Assumptions C07_item_containers_list_their_items_partial.
+Print Assumptions C07_item_containers_consistent_after_every_history.
